@@ -121,6 +121,7 @@ impl Shared {
         let mut port = None;
         let mut udp = false;
         let mut dns = false;
+        let mut localhost: Option<&str> = None;
         for component in address.iter() {
             match component {
                 Protocol::P2p(hash) => {
@@ -135,6 +136,9 @@ impl Shared {
                         Protocol::Tcp(p) => port = Some(*p),
                         Protocol::Udp(_) => udp = true,
                         Protocol::Dns4(name) if name.as_ref() == "127.0.0.1" => dns = true,
+                        Protocol::Dns(name) if name.as_ref() == "localhost" => localhost = Some("hn"),
+                        Protocol::Dns4(name) if name.as_ref() == "localhost" => localhost = Some("hf"),
+                        Protocol::Dns6(name) if name.as_ref() == "localhost" => localhost = Some("hs"),
                         _ => {}
                     }
                     base = base.with(other);
@@ -145,6 +149,15 @@ impl Shared {
         for (n, addresses) in self.listen.lock().expect("listen").iter().enumerate() {
             if let Some(k) = addresses.iter().position(|a| *a == base) {
                 name = format!("{n}.{k}");
+            }
+            // `/dns*/localhost/tcp/<port of listen address n.k>`: `hn` / `hf` / `hs` + `n.k`
+            if let (Some(host), Some(p)) = (localhost, port) {
+                let same_port = |a: &Multiaddr| a.iter().any(|c| matches!(c, Protocol::Tcp(q) if q == p));
+                if let Some(k) = addresses.iter().position(same_port) {
+                    if base.iter().count() == 2 {
+                        name = format!("{host}{n}.{k}");
+                    }
+                }
             }
         }
         if name == "?" {
@@ -729,6 +742,33 @@ impl NodeBox {
             return nth(k).map(|a| a.with(Protocol::P2p(PeerId::random().into())));
         }
         None
+    }
+
+    /// Address kinds of `dialaddr` / `addknown` only: `hn<k>` / `hf<k>` / `hs<k>` =
+    /// `/dns/localhost` / `/dns4/localhost` / `/dns6/localhost` + `/tcp/<port of listen address k of
+    /// node j>/p2p/<j>` (`localhost` resolves without network); everything else as `address`.
+    fn dial_address_kind(&self, j: usize, kind: &str) -> Option<Multiaddr> {
+        for (prefix, which) in [("hn", 0u8), ("hf", 1), ("hs", 2)] {
+            if let Some(k) = kind.strip_prefix(prefix) {
+                let peer = self.peer_of(j)?;
+                let listen = self.shared.listen.lock().expect("listen").get(j).cloned()?;
+                let base = k.parse::<usize>().ok().and_then(|k| listen.get(k).cloned())?;
+                let port = base.iter().find_map(|c| match c {
+                    Protocol::Tcp(p) => Some(p),
+                    _ => None,
+                })?;
+                let name = std::borrow::Cow::Borrowed("localhost");
+                let first = match which {
+                    0 => Protocol::Dns(name),
+                    1 => Protocol::Dns4(name),
+                    _ => Protocol::Dns6(name),
+                };
+                return Some(
+                    Multiaddr::empty().with(first).with(Protocol::Tcp(port)).with(Protocol::P2p(peer.into())),
+                );
+            }
+        }
+        self.address(j, kind)
     }
 
     fn op_node(&mut self, args: &[&str]) -> String {
@@ -1325,7 +1365,7 @@ impl VerifBox for NodeBox {
                 (Some((_, n)), Some(peer)) => self.ask(&n.cmd, |r| NodeCmd::Dial(peer, r)),
                 _ => "bad-op".into(),
             },
-            ["dialaddr", i, j, kind] => match (self.node(i), num(j).and_then(|j| self.address(j, kind))) {
+            ["dialaddr", i, j, kind] => match (self.node(i), num(j).and_then(|j| self.dial_address_kind(j, kind))) {
                 (Some((_, n)), Some(address)) => self.ask(&n.cmd, |r| NodeCmd::DialAddress(address, r)),
                 _ => "bad-op".into(),
             },
@@ -1334,7 +1374,7 @@ impl VerifBox for NodeBox {
                 let Some(peer) = self.peer_of(j) else { return "bad-op".into() };
                 let mut addresses = Vec::new();
                 for kind in kinds.split('+') {
-                    match self.address(j, kind) {
+                    match self.dial_address_kind(j, kind) {
                         Some(a) => addresses.push(a),
                         None => return "bad-op".into(),
                     }
